@@ -115,3 +115,13 @@ Example ex4_fanout_run :
     hands 0 tr = [yp 0 0; yp 1 1; yp 2 2] /\ hands 1 tr = [yp 0 0; yp 1 1] /\
     held ex4_net s = [] /\ urgent ex4_net s = false /\ deadline ex4_net s = None.
 Proof. eexists. eexists. split; [vm_compute; reflexivity|]. vm_compute. repeat split. Qed.
+
+(* ---- the stage-by-stage views of the three-stage example (non-vacuity of Elem/ComposeNet.v) ---------------------- *)
+From ONL Require Import Elem.ComposeNet.
+
+Example ex_pipe_views :
+  pviews [wire_elem None 0; tb_elem ex_tb 0] (port_elem ex_port 0) ex_acts =
+  Some [ {| v_puts := [xp 0; xp 1; xp 2]; v_fwds := [xp 0; xp 1]; v_drops := [xp 2]; v_held := [] |};
+         {| v_puts := [xp 0; xp 1]; v_fwds := [xp 0; xp 1]; v_drops := []; v_held := [] |};
+         {| v_puts := [xp 0; xp 1]; v_fwds := [xp 0; xp 1]; v_drops := []; v_held := [] |} ].
+Proof. vm_compute. reflexivity. Qed.
